@@ -126,11 +126,13 @@ class AllPaths:
                                    or (recursive and exists(lambda c: c in cov and p == c.resolve(), "Path")
                                        and exists(lambda d: d in paths and not d.is_file() and d.resolve() in p.parents, "Path"))), "Path"))
 
+    # (stated over the ghost set of covered files, not over a local of the body)
     loops = {0: LoopSpec(
-        inv=lambda result, paths, all_files, _done: forall(lambda p: implies(
+        inv=lambda result, paths, project, _done: forall(lambda p: implies(
             p in result,
             (p in _done and p.is_file())
-            or (p in all_files and exists(lambda d: d in _done and not d.is_file() and d.resolve() in p.parents, "Path"))), "Path"),
+            or (exists(lambda c: c in covered_files(project) and p == c.resolve(), "Path")
+                and exists(lambda d: d in _done and not d.is_file() and d.resolve() in p.parents, "Path"))), "Path"),
         types={"result": "set[Path]"})}
 
 
